@@ -162,8 +162,14 @@ impl Property for C05 {
         for i in 1..case.impl_lines.len() {
             let (a, b) = (&out.impl_resp[i], &out.drv_resp[i + 1]);
             if case.impl_lines[i].starts_with("eval") {
-                if !same_value_or_class(a, b) {
-                    return Verdict::ModelMismatch(format!("value: impl `{}` model `{}`", a, b));
+                if !same_value_or_class(a, b) || a.split(" ; ").nth(1) != b.split(" ; ").nth(1) {
+                    // the reference value of a sequence is that of the reference interpreter (C05_chain / C05_tuple, C08_adequate)
+                    return Verdict::SpecViolation(format!(
+                        "`{}` gives `{}`; evaluating all elements in order (reference interpreter) gives `{}`",
+                        case.impl_lines[i].split(' ').nth(2).unwrap_or(""),
+                        a,
+                        b
+                    ));
                 }
             } else if a != b {
                 return Verdict::ModelMismatch(format!("`{}`: impl `{}` model `{}`", case.impl_lines[i], a, b));
@@ -179,6 +185,8 @@ fn seq_case(src: &str, spec_tree: Option<&str>, bucket: &str) -> Case {
     let rest = vec![
         "new 0 hm".to_string(),
         format!("setf 0 {} id", xarg("f")),
+        format!("setv 0 {} I3", xarg("x")),
+        format!("eval 0 ro s value {}", xarg(src)),
         format!("eval 0 mut s value {}", xarg(src)),
         "dump 0".to_string(),
     ];
